@@ -96,6 +96,10 @@ def do_call(m, call, x, c):
         return m.sample(3, context=c)
     if call == 'sample_and_log_prob':
         return m.sample_and_log_prob(3, context=c)
+    if call == 'sample1':
+        return m.sample(1, context=c)
+    if call == 'sample_and_log_prob1':
+        return m.sample_and_log_prob(1, context=c)
     if call == 'transform_to_noise':
         return m.transform_to_noise(x, context=c)
     raise ValueError(call)
@@ -175,7 +179,7 @@ def prepare(case):
     x = make_kind(x0, case.kind)
     c = make_kind(c0, ckind)
     callers = {}
-    if case.call not in ('sample', 'sample_and_log_prob'):
+    if case.call not in ('sample', 'sample_and_log_prob', 'sample1', 'sample_and_log_prob1'):
         callers['inputs'] = x
     if c is not None:
         callers['context'] = c
@@ -426,7 +430,7 @@ def run_history(cfg, mode, seq, seed):
     for i, (call, atom, kind, x0, c0) in enumerate(calls):
         x = make_kind(x0, kind)
         c = make_kind(c0, 'contig' if kind == 'contig' else KINDS[(KINDS.index(kind) + 2) % 5])
-        if call not in ('sample', 'sample_and_log_prob'):
+        if call not in ('sample', 'sample_and_log_prob', 'sample1', 'sample_and_log_prob1'):
             all_callers['inputs%d' % i] = x
         if c is not None:
             all_callers['context%d' % i] = c
